@@ -291,6 +291,28 @@ CLAIMED["C18"] = (
 NOT_YET = {}
 
 
+# properties whose anchored functions are also READ FROM THE SOURCE on every run (harness/pygen.py -> coq/Gen/Source.v)
+GEN = {
+    "C03": "the @field_validator chains of all nine geometry classes",
+    "C06": "compute_affinity_in_time and the two type sets of affinity.py",
+    "C11": "buffer_geometry (guard, dispatch) and the three closed-form buffers",
+    "C12": "intervals_overlap, have_temporal_overlap, have_frequency_overlap, is_in_clip",
+    "C14": "the generator loop of segment_clip",
+}
+for _pid, _what in GEN.items():
+    _t, _n, _tech, _ref = CLAIMED[_pid]
+    CLAIMED[_pid] = (
+        _t + f" In addition {_what} are translated from the Python source into Gallina on every run (coq/Gen/Source.v) and the "
+        f"{_pid}_src_* theorems prove, against whatever was generated, that the code as written computes what the model computes "
+        "(for all inputs), so a change of these functions breaks a proof obligation and not only the sampled correspondence.",
+        _n + " Also trusted: the source translator harness/pygen.py with its interface table and coq/Gen/Prelude.v (meaning of the "
+        "Python subset, representation of library objects); a unit it cannot read falls back to the translation of the pinned "
+        "tree and is reported as ADVISORY in the evidence (tie = correspondence alone for that unit).",
+        _tech + " + model regenerated from source by a fail-closed Python-ast translator (equivalence with the hand model proved)",
+        _ref + "; section 10.12",
+    )
+
+
 def main():
     props = [json.loads(l) for l in (VERIF / "properties.jsonl").read_text().splitlines() if l.strip()]
     checks, na = [], []
